@@ -256,7 +256,7 @@ def run_case(case):
             if cands and not w.inflight:
                 w.trigger_ike_rekey(ep_, cands[0])
                 info['rekeys'] = info.get('rekeys', 0) + 1
-                for _ in range(op[3] % 4):          # deliver part of the exchange: request, response, delete, ...
+                for _ in range(op[3] % 6):          # deliver part of the exchange: request, response, delete, ...
                     if w.inflight:
                         w.deliver(w.inflight[0])
         elif k == 'restart':
@@ -435,6 +435,8 @@ def body(case, stats):
     for k in ('acquires', 'reused', 'restarts', 'unknown', 'rekeys', 'in_rekey'):
         if info.get(k):
             kl.append('saw:' + k)
+    if case.get('directed'):
+        kl.append('directed:' + case['directed'])
     for c in cfgs:
         for e in c['protect']:
             kl.append(f'entry:{e["ipsec_proto"]}/{e["mode"]}')
@@ -457,10 +459,29 @@ def cases(draw):
     cfgs = draw(host_configs())
     acq = st.builds(lambda j, i, hs, hd, unk, nowait: ['acquire', j, i, hs, hd, unk, nowait], st.integers(0, 2), st.integers(0, 2),
                     st.integers(0, 300), st.integers(0, 300), st.sampled_from([False, False, False, True]), st.booleans())
-    rekey = st.builds(lambda j, by_peer, n: ['rekey', j, by_peer, n], st.integers(0, 2), st.booleans(), st.integers(0, 3))
+    rekey = st.builds(lambda j, by_peer, n: ['rekey', j, by_peer, n], st.integers(0, 2), st.booleans(), st.integers(0, 5))
     ops = draw(st.lists(st.one_of(acq, acq, acq, rekey, st.just(['flush']), st.just(['restart']),
                                   st.builds(lambda i: ['deliver', i], st.integers(0, 2))), min_size=1, max_size=10))
     return {'cfgs': cfgs, 'stale': draw(st.integers(0, 4)), 'ops': ops, 'close': True, 'auto_index': draw(st.integers(0, 3)) == 0}
+
+
+@st.composite
+def rekey_cell_cases(draw, by_peer, n):
+    """directed: an ACQUIRE at every point of an IKE_SA rekey (after 0..4 of its four datagrams), the host under test being the
+    rekey's initiator or its responder"""
+    cfgs = draw(host_configs())
+    hs, hd = draw(st.integers(0, 300)), draw(st.integers(0, 300))
+    ops = [['acquire', 0, 0, hs, hd, False, False], ['rekey', 0, by_peer, n], ['acquire', 0, draw(st.integers(0, 2)), hd, hs, False, False],
+           ['flush'], ['acquire', 0, draw(st.integers(0, 2)), hs + 1, hd + 1, False, False]]
+    return {'cfgs': cfgs, 'stale': 0, 'ops': ops, 'close': True, 'auto_index': False, 'directed': f'rekey:{"peer" if by_peer else "self"}:{n}'}
+
+
+def cell_worker(task):
+    by_peer, n, count, seed = task
+    ctx = common.Ctx('C15', 'quick', seed)
+    st_ = Stats()
+    hyp_search(ctx, st_, rekey_cell_cases(by_peer, n), body, count, seed)
+    return st_
 
 
 def worker(task):
@@ -474,6 +495,9 @@ def worker(task):
 def run(ctx):
     n = 50 if ctx.quick else 2500
     for st_ in pmap(worker, [(n, ctx.seed * 64 + i) for i in range(common.NCPU)]):
+        ctx.stats.merge(st_)
+    cells = [(bp, k, 3 if ctx.quick else 40, ctx.seed * 64 + 7 * k + bp) for bp in (False, True) for k in range(5)]
+    for st_ in pmap(cell_worker, cells):
         ctx.stats.merge(st_)
     if not ctx.quick:
         import sys as _sys
